@@ -217,7 +217,7 @@ def c05_validate_gt_gate(ctx, v):
         v.covers_sat += 1 if seen else 0
 
 
-def c05_orphan_disturbs_nothing(ctx, v):
+def c05_orphan_disturbs_nothing(ctx, v, pid="C05", obligation="c05_orphan_disturbs_nothing"):
     """Blockchain::add_block offered a block whose parent is not stored and that shares no
     ancestor with the longest chain (block id, tip id, hashes, genesis period symbolic; real MIR
     of the body up to the fork-choice comparison): no longest-chain block is taken out of the
@@ -227,7 +227,7 @@ def c05_orphan_disturbs_nothing(ctx, v):
     in /verif/known_replays)."""
     from . import addblock_explore as AB
     from .run import known_classes
-    known = known_classes("C05", "c05_orphan_disturbs_nothing")
+    known = known_classes(pid, obligation)
     r = AB.explore(ctx)
     ex = r["ex"]
     v.paths += len(r["outs"])
